@@ -85,6 +85,9 @@ pub(crate) fn validate_regime(regime: &str, ops: &[Op], builds: &[Vec<Applied>])
             }
             Ok(())
         },
+        // "X": arbitrary states (any subsets, orders, sources, multi-hour): only used by oracles
+        // that are not conditioned on the gap-free / one-forgiveness-period regimes
+        "X" => Ok(()),
         _ => Err("unknown regime".into()),
     }
 }
